@@ -118,6 +118,14 @@ let run_yparse (arg : string) =
     | _ -> failwith ("bad token " ^ t)) (String.split_on_char ';' arg) in
   print_endline (ocaml_string (Model.show_outcome (Model.parse_tokens (nat_of_int 100000) toks)))
 
+(* mtokens HEX / mparse HEX: Model/Tokenizer.v on the bytes of the string *)
+let run_mtokens (h : string) =
+  let b = bytes_of_string (unhex (if h = "-" then "" else h)) in
+  print_endline (ocaml_string (Model.show_tokout (Model.tokenize b)))
+let run_mparse (h : string) =
+  let b = bytes_of_string (unhex (if h = "-" then "" else h)) in
+  print_endline (ocaml_string (Model.show_outcome (Model.parse_string (fun _ -> nat_of_int 100000) b)))
+
 (* mschema TOKS|TOKS|... : the table's CREATE TABLE tokens, then the tokens of each of its indexes ("!" = did not tokenize) *)
 let toks_of (arg : string) = if arg = "" || arg = "-" then [] else List.map (fun t ->
     match String.split_on_char ':' t with
@@ -242,6 +250,8 @@ let () =
       else if starts_with "drv " line then run_drv (String.split_on_char ' ' line)
       else if starts_with "mscan " line then run_mscan (String.split_on_char ' ' line)
       else if starts_with "mschema " line then run_mschema (String.sub line 8 (String.length line - 8))
+      else if starts_with "mtokens " line then run_mtokens (String.sub line 8 (String.length line - 8))
+      else if starts_with "mparse " line then run_mparse (String.sub line 7 (String.length line - 7))
       else if starts_with "yparse" line then run_yparse (if String.length line > 7 then String.sub line 7 (String.length line - 7) else "")
       else if starts_with "crashphases" line then begin
         (* the order of a writer's file operations against Model/Crash.v's protocol automaton *)
